@@ -168,10 +168,10 @@ def correspondence(ctx):
         "CREATE * ; DISALLOW * (a pre-existing file must not be consumed), DELETE * ; DISALLOW * (a file that is still there must "
         "not be consumed), MODIFY * ; DISALLOW *, really created / really deleted twins and the all-clean twin; verdicts against "
         "the oracle run on the paths the names denote (its own cleaner; no claim when two names of a map denote one path) and "
-        "against the model. NO oracle claim for MODIFY on an entry recorded unclean unless exactly one side is unclean and the "
-        "digests differ: VerifyArtifacts looks the cleaned name up in the maps as recorded, so an unchanged file with one unclean "
-        "entry counts as modified and a changed file with two unclean entries does not (deviation of the code, reproduced by the "
-        "model, reported to the coordinator; those cases are model vs implementation only); "
+        "against the model; MODIFY on an entry recorded under an unclean name (unchanged / changed file; material, product or "
+        "both entries unclean) forms the regression classes F21-modify-unclean-entry-<form>-<side>-<kind> of the repaired defect "
+        "F21 (the hashes were looked up under the cleaned name in the maps as recorded: an unchanged file with one unclean entry "
+        "counted as modified, a changed file with two unclean entries did not); "
         "require-on-empty-queue-<form> classes: REQUIRE f with no artifacts at all (materials, products, inspection), as the only "
         "rule with another artifact queued, followed by other rules, after ALLOW * / MATCH * / CREATE * / DELETE * / MODIFY f "
         "consumed everything (all rejected), and the twins where f is queued (accepted); "
